@@ -31,7 +31,10 @@ Entries == {
       D(4, 29, 2, 2024, 23, 59, 59, FALSE, 5, 30)),
     E(hello, <<50, 46, 57>>, <<experimental>>, << <<urgency, low>> >>, Body3, m1, D(6, 31, 12, 2022, 0, 0, 0, FALSE, 0, 0)),
     E(libx, <<48, 46, 49, 43, 98, 49>>, <<unstable>>, << <<urgency, medium>> >>, Body4, m2, D(7, 1, 3, 2015, 12, 30, 1, TRUE, 11, 0)),
-    E(hello, <<51>>, <<unstable>>, << <<urgency, low>> >>, Body5, m1, D(5, 13, 6, 2025, 9, 8, 7, FALSE, 2, 0)) }
+    E(hello, <<51>>, <<unstable>>, << <<urgency, low>> >>, Body5, m1, D(5, 13, 6, 2025, 9, 8, 7, FALSE, 2, 0)),
+    \* an option value with blanks and brackets inside, as dpkg writes an urgency comment: "urgency=medium (HIGH for users)"
+    E(hello, <<52>>, <<unstable>>, << <<urgency, medium \o <<SP, 40, 72, 73, 71, 72, SP, 102, 111, 114, SP, 117, 115, 101, 114, 115, 41>>>>, <<binonly, yes>> >>, Body1, m1,
+      D(1, 2, 1, 2006, 15, 4, 5, FALSE, 1, 0)) }
 Models == UNION {[1..n -> Entries] : n \in 1..MaxEntries}
 Vec(es, lead, gap, final) ==
     LET r == RenderChangelog(es, lead, gap, final) IN
